@@ -1326,6 +1326,23 @@ fn adts_to_raw(frame: &[u8]) -> Result<&[u8], AdtsValidationError> {
         });
     }
 
+    if aac_frame_length == header_len {
+        // A header without any raw data block would become a zero-size sample, which the
+        // sample tables cannot represent (and which finish() used to panic on).
+        return Err(AdtsValidationError {
+            kind: AdtsErrorKind::InvalidFrameLength,
+            severity: ErrorSeverity::Error,
+            byte_offset: 3,
+            expected: Some(format!(">{} (header plus payload)", header_len)),
+            found: Some(format!("{} (header only)", aac_frame_length)),
+            hex_dump: Some(create_hex_dump(3, 3)),
+            suggestion: Some("Frame length equals the header length: the frame carries no AAC payload. Skip empty frames before muxing.".to_string()),
+            code_example: None,
+            technical_details: Some("MP4 samples must not be empty; an ADTS frame needs at least one byte of raw_data_block.".to_string()),
+            related_errors: Vec::new(),
+        });
+    }
+
     if aac_frame_length > frame.len() {
         return Err(AdtsValidationError {
             kind: AdtsErrorKind::InvalidFrameLength,
